@@ -17,6 +17,7 @@ RULE = ('seeded attribute declarations: 1-4 attributes with use {optional, requi
         'seeded value assignment from {valid, invalid, value-equal-to-fixed, lexically-equal-to-fixed}; use_defaults and '
         'fill_missing on / off; XMLSchema10 and XMLSchema11; a case = (declaration, attribute set); distinct non-trivial = '
         'distinct (declaration, attribute set) where a wildcard, a fixed / default value or a prohibited use is involved')
+RULE += (' ' + 'Union attribute type of two primitive types (integer / boolean) for fixed values; shard defattrs: XSD 1.1 defaultAttributes x lexical forms of defaultAttributesApply x plain / extension types x all attribute subsets.')
 ASSUMPTIONS = [
     'use="prohibited" is read as the recommendation does: the use is absent from the type, so a matching wildcard decides',
     'xsi:type / nil / schemaLocation / noNamespaceSchemaLocation are admitted on every element, other xsi:* names are errors',
